@@ -397,7 +397,7 @@ func writeEvidence(spec *checkSpec, tier string, e *engine, results []*harnessRe
 	cov["reach_witnesses"] = witnesses
 	cov["queries"] = map[string]interface{}{"total": gstats.queries, "sat": gstats.sat, "unsat": gstats.unsat, "unknown": gstats.unknown}
 	cov["solver_s"] = float64(gstats.solverNs) / 1e9
-	cov["solver"] = "z3 (z3 -in, one live process per worker, push/pop)"
+	cov["solver"] = "z3 5.1.0 (z3-new -in, one live process per worker, push/pop); z3 4.8.12 and cvc5 1.0.3 as one-shot fallback on unknown"
 	cov["inconclusive"] = inconcl
 	cov["outside_the_claim"] = spec.outside
 	cov["exhaustive"] = false
